@@ -177,8 +177,7 @@ Definition text_ok_b (ix : indexer) (h : hay) : bool :=
                      match ix_next_right_pos ix h q with Ok (Some q') => is_bnd h q' | _ => true end))
           (seq 0 (S (length h))).
 
-(* a node without byte-level leaves, backreferences or string sets: what the parser produces for a pattern without
-   backreferences and \q{...}; for such nodes the optimizer theorems need no hypothesis on the node besides qok *)
+(* a node without byte-level leaves or string sets: what the parser produces for a pattern without \q{...}; for such nodes the optimizer theorems need no hypothesis on the node besides qok *)
 Fixpoint simple (n : node) : bool :=
   match n with
   | NCat l => forallb simple l
@@ -187,7 +186,7 @@ Fixpoint simple (n : node) : bool :=
   | NLookaround _ _ _ _ c => simple c
   | NLoop b _ _ _ _ _ => simple b
   | NLoop1CharBody b _ _ _ => simple b
-  | NByteSequence _ | NByteSet _ | NBackRef _ _ | NStringSet _ _ => false
+  | NByteSequence _ | NByteSet _ | NStringSet _ _ => false
   | _ => true
   end.
 
